@@ -1,4 +1,8 @@
 import GeoVerif.Model.Polygon
+import GeoVerif.Model.PolygonF
+import GeoVerif.Model.Planimeter
+import GeoVerif.Proofs.PolygonHist
+import GeoVerif.Props.C16
 import Mathlib.Algebra.Order.Floor.Ring
 import Mathlib.Algebra.Order.Floor.Semiring
 import Mathlib.Data.Rat.Floor
@@ -145,8 +149,8 @@ theorem transitdirect_parity (x1 x2 r1 r2 : ℚ) (j1 j2 : ℤ)
 
 /-- `TestPoint` returns what `AddPoint` followed by `Compute` returns (same backend values), for every reachable or
     unreachable state with at least one vertex -/
-theorem testPoint_eq_add_compute (st : State) (A : ℚ) (lon : F64) (rv sg : Bool) (k1 k2 : ℚ × ℚ) (h : st.num ≠ 0) :
-    testPoint st A lon rv sg k1 k2 = compute (addPoint st lon k1.1 k1.2) A rv sg k2.1 k2.2 := by
+theorem testPoint_eq_add_compute (st : State) (A : ℚ) (lat lon : F64) (rv sg : Bool) (k1 k2 : ℚ × ℚ) (h : st.num ≠ 0) :
+    testPoint st A lon rv sg k1 k2 = compute (addPoint st lat lon k1.1 k1.2) A rv sg k2.1 k2.2 := by
   unfold testPoint compute addPoint
   simp only [h, if_false]
   by_cases hp : st.polyline
@@ -155,8 +159,8 @@ theorem testPoint_eq_add_compute (st : State) (A : ℚ) (lon : F64) (rv sg : Boo
   · have : ¬ (st.num + 1 < 2) := by omega
     simp [hp, this, add_assoc]
 
-theorem testEdge_eq_add_compute (st : State) (A s : ℚ) (lon2 : F64) (S12 : ℚ) (rv sg : Bool) (k2 : ℚ × ℚ) (h : st.num ≠ 0) :
-    testEdge st A s lon2 S12 rv sg k2 = compute (addEdge st s lon2 S12) A rv sg k2.1 k2.2 := by
+theorem testEdge_eq_add_compute (st : State) (A s : ℚ) (lat2 lon2 : F64) (S12 : ℚ) (rv sg : Bool) (k2 : ℚ × ℚ) (h : st.num ≠ 0) :
+    testEdge st A s lon2 S12 rv sg k2 = compute (addEdge st s lat2 lon2 S12) A rv sg k2.1 k2.2 := by
   unfold testEdge compute addEdge
   simp only [h, if_false]
   by_cases hp : st.polyline
@@ -373,13 +377,13 @@ abbrev Vertex := F64 × F64
 abbrev Backend := Vertex → Vertex → ℚ × ℚ
 
 def step (B : Backend) (sp : State × Vertex) (q : Vertex) : State × Vertex :=
-  (addPoint sp.1 q.2 (B sp.2 q).1 (B sp.2 q).2, q)
+  (addPoint sp.1 q.1 q.2 (B sp.2 q).1 (B sp.2 q).2, q)
 
 /-- `Clear(); AddPoint(v₀); …; AddPoint(vₙ₋₁); Compute(reverse, sign)` for a polygon (not polyline) -/
 def polygon (B : Backend) (A : ℚ) (rv sg : Bool) : List Vertex → Result
   | [] => compute (init false) A rv sg 0 0
   | v :: r =>
-    let sp := r.foldl (step B) (addPoint (init false) v.2 0 0, v)
+    let sp := r.foldl (step B) (addPoint (init false) v.1 v.2 0 0, v)
     compute sp.1 A rv sg (B sp.2 v).1 (B sp.2 v).2
 
 /-- sum of `f` over the consecutive pairs of the path `p, r₀, r₁, …` -/
@@ -439,13 +443,13 @@ theorem foldl_step (B : Backend) (r : List Vertex) (st : State) (p : Vertex) (hn
   induction r generalizing st p with
   | nil => simp [path, hp, hl, lastV]
   | cons q r ih =>
-    have hst : (step B (st, p) q) = (addPoint st q.2 (B p q).1 (B p q).2, q) := rfl
-    have ha : addPoint st q.2 (B p q).1 (B p q).2 =
+    have hst : (step B (st, p) q) = (addPoint st q.1 q.2 (B p q).1 (B p q).2, q) := rfl
+    have ha : addPoint st q.1 q.2 (B p q).1 (B p q).2 =
         { st with num := st.num + 1, perimsum := st.perimsum + (B p q).1, areasum := st.areasum + (B p q).2,
-                  crossings := st.crossings + transit p.2 q.2, lon1 := q.2 } := by
+                  crossings := st.crossings + transit p.2 q.2, lat1 := q.1, lon1 := q.2 } := by
       unfold addPoint; simp [hn, hp, hl]
     simp only [List.foldl_cons, hst]
-    obtain ⟨h1, h2, h3, h4, h5, h6, h7, h8⟩ := ih (addPoint st q.2 (B p q).1 (B p q).2) q (by rw [ha]; simp) (by rw [ha]; exact hp)
+    obtain ⟨h1, h2, h3, h4, h5, h6, h7, h8⟩ := ih (addPoint st q.1 q.2 (B p q).1 (B p q).2) q (by rw [ha]; simp) (by rw [ha]; exact hp)
       (by rw [ha])
     refine ⟨?_, ?_, ?_, ?_, ?_, ?_, h7, ?_⟩
     · rw [h1, ha]; simp; omega
@@ -469,11 +473,12 @@ theorem polygon_eq (B : Backend) (A : ℚ) (rv sg : Bool) (vs : List Vertex) (h 
       ⟨vs.length, some (cyc (fs B) vs), some (some (areaReduce (cyc (fS B) vs) A (cyc fT vs) rv sg))⟩ := by
   match vs, h with
   | v :: r, h =>
-    have h0 : addPoint (init false) v.2 0 0 = { (init false) with num := 1, lon0 := v.2, lon1 := v.2 } := by
+    have h0 : addPoint (init false) v.1 v.2 0 0 = { (init false) with num := 1, lat0 := v.1, lon0 := v.2, lat1 := v.1, lon1 := v.2 } := by
       simp [addPoint, init]
-    obtain ⟨h1, h2, h3, h4, h5, h6, h7, h8⟩ := foldl_step B r (addPoint (init false) v.2 0 0) v (by rw [h0]; simp) (by rw [h0]; rfl) (by rw [h0])
-    have hlen : ¬ ((r.foldl (step B) (addPoint (init false) v.2 0 0, v)).1.num < 2) := by
-      rw [h1, h0]; simp at h ⊢; omega
+    obtain ⟨h1, h2, h3, h4, h5, h6, h7, h8⟩ := foldl_step B r (addPoint (init false) v.1 v.2 0 0) v (by rw [h0]; simp) (by rw [h0]; rfl) (by rw [h0])
+    have hlen : ¬ ((r.foldl (step B) (addPoint (init false) v.1 v.2 0 0, v)).1.num < 2) := by
+      have hnum : (addPoint (init false) v.1 v.2 0 0).num = 1 := by rw [h0]
+      rw [h1, hnum]; simp only [List.length_cons] at h; omega
     simp only [polygon, compute, hlen, if_false, h7, Bool.false_eq_true]
     rw [h1, h2, h3, h4, h5, h6, h8, h0]
     simp only [cyc, path_snoc, init]
@@ -693,7 +698,7 @@ theorem relabel_cong (S : ℚ → ℚ → ℚ → ℚ) (A : ℚ) (tie : ∀ φ1 
       · rw [a, b]; have := tie e.φ1 e.φ2; push_cast; linarith
     refine ⟨m + ε, ?_⟩
     simp only [rawArea, crossings, List.map_cons, List.sum_cons] at hm ⊢
-    rw [hSS, ht]; push_cast; linarith
+    rw [hSS, ht]; simp only [Int.cast_add]; linarith
 
 /-- **`area_relabel_invariant`** … so the reduced area is unchanged (neither `ΣS12` nor the crossing parity is
     invariant on its own when an edge spans exactly 180°: the theorem is about the pair) -/
@@ -793,5 +798,808 @@ example : (∀ p q, (toyB q p).1 = (toyB p q).1) ∧ (∀ p q, (toyB q p).2 = -(
 example : ∀ p ∈ [vA, vB, vC, vD], ∀ q ∈ [vA, vB, vC, vD], (transit q.2 p.2 + transit p.2 q.2) % 2 = 0 := by
   decide +kernel
 example : cyc fT [vA, vB, vC, vD] = 1 := by decide +kernel
+
+/-! ## Edit histories: every sequence of `Clear / AddPoint / AddEdge / TestPoint / TestEdge / Compute`, any solver -/
+
+/-- **(b) edit-history independence, exact-sum model**: after *any* history the state — `_num`, `_crossings`, the two
+    sums, `_lat0, _lon0, _lat1, _lon1`, the mode — is the state reached by the `Add*` operations after the last `Clear`
+    alone; `TestPoint`, `TestEdge`, `Compute` and everything before the last `Clear` leave no trace -/
+theorem history_independent (B : Polygon.Backend) (A : ℚ) (pl : Bool) (ops : List Op) :
+    run B A (init pl) ops = run B A (init pl) (effective ops) := by
+  unfold run
+  exact foldl_effective (fun s op => (exec B A s op).1) (fun s => s.polyline = pl) (init pl) rfl
+    (fun s op h => by rw [exec_polyline]; exact h) (fun s h => by simp [exec, clear, h])
+    (fun s op => exec_observer B A s op) ops
+
+/-- **(b) for the concrete record** (`PolygonF.StateF`: `_num`, `_crossings`, both words of `_areasum` and of
+    `_perimetersum`, `_lat0, _lon0, _lat1, _lon1`, `_polyline`, every operation as the code's sequence of binary64
+    operations): the same statement, bit for bit -/
+theorem history_independent_record (B : Polygon.Backend) (A : F64) (pl : Bool) (ops : List Op) :
+    PolygonF.run B A (PolygonF.init pl) ops = PolygonF.run B A (PolygonF.init pl) (effective ops) := by
+  unfold PolygonF.run
+  exact foldl_effective (fun s op => (PolygonF.exec B A s op).1) (fun s => s.polyline = pl) (PolygonF.init pl) rfl
+    (fun s op h => by rw [execF_polyline]; exact h) (fun s h => by simp [PolygonF.exec, PolygonF.clear, h])
+    (fun s op => execF_observer B A s op) ops
+
+/-- **clearing restores the empty state**, after any history whatever -/
+theorem clear_after_any_history (B : Polygon.Backend) (A : ℚ) (pl : Bool) (ops : List Op) :
+    run B A (init pl) (ops ++ [Op.clear]) = init pl := by
+  rw [history_independent, effective_append_clear]; rfl
+
+theorem clear_after_any_history_record (B : Polygon.Backend) (A : F64) (pl : Bool) (ops : List Op) :
+    PolygonF.run B A (PolygonF.init pl) (ops ++ [Op.clear]) = PolygonF.init pl := by
+  rw [history_independent_record, effective_append_clear]; rfl
+
+/-- the queries are observers: whatever was asked before, a query returns what it returns on the object built by the
+    effective `Add*` operations alone -/
+theorem query_after_history (B : Polygon.Backend) (A : ℚ) (pl : Bool) (pre post : List Op) (q : Op) :
+    (trace B A (init pl) (pre ++ q :: post))[pre.length]? = some (exec B A (run B A (init pl) (effective pre)) q) := by
+  rw [trace_append, List.getElem?_append_right (by rw [trace_length]), trace_length, Nat.sub_self,
+    ← history_independent]
+  rfl
+
+/-- non-vacuity / what `effective` is on a concrete history: two vertices, a query, `Clear`, an ignored edge, a vertex,
+    a query, an edge -/
+example (a b c d : F64) : effective [.addPoint a b, .addPoint c d, .compute true false, .clear, .addEdge a b,
+      .addPoint c d, .testPoint a b false true, .addEdge c d]
+    = [.addEdge a b, .addPoint c d, .addEdge c d] := rfl
+
+/-! ### (e) the count returned by `Compute` / `TestPoint` / `TestEdge` -/
+
+/-- the number of vertices of the polygon a history describes: `Clear` starts again, every point counts, an edge counts
+    once there is a point to start from (documented: `AddEdge` "does nothing if no points have been added yet") -/
+def countV : List Op → ℕ → ℕ
+  | [], n => n
+  | .clear :: r, _ => countV r 0
+  | .addPoint .. :: r, n => countV r (n + 1)
+  | .addEdge .. :: r, n => countV r (if n = 0 then 0 else n + 1)
+  | _ :: r, n => countV r n
+
+theorem num_eq_count (B : Polygon.Backend) (A : ℚ) (st : State) (ops : List Op) : (run B A st ops).num = countV ops st.num := by
+  induction ops generalizing st with
+  | nil => rfl
+  | cons op ops ih =>
+    have h : run B A st (op :: ops) = run B A (exec B A st op).1 ops := rfl
+    rw [h, ih]
+    cases op <;> simp only [countV, exec, clear, init, addPoint, addEdge] <;> split_ifs <;> simp_all
+
+theorem num_eq_count_record (B : Polygon.Backend) (A : F64) (st : PolygonF.StateF) (ops : List Op) :
+    (PolygonF.run B A st ops).num = countV ops st.num := by
+  induction ops generalizing st with
+  | nil => rfl
+  | cons op ops ih =>
+    have h : PolygonF.run B A st (op :: ops) = PolygonF.run B A (PolygonF.exec B A st op).1 ops := rfl
+    rw [h, ih]
+    cases op <;> simp only [countV, PolygonF.exec, PolygonF.clear, PolygonF.init, PolygonF.addPoint, PolygonF.addEdge] <;>
+      split_ifs <;> simp_all
+
+/-- the count a query reports, as a function of the number of vertices `n` of the polygon so far -/
+def countOf (q : Op) (n : ℕ) : ℕ :=
+  match q with
+  | .testPoint .. => n + 1
+  | .testEdge .. => if n = 0 then 0 else n + 1
+  | _ => n
+
+/-- **(e)**: for every history `pre`, every query `q` issued after it returns the number of vertices of the polygon
+    described by `pre` (`+ 1` for the tentative vertex of `TestPoint` / `TestEdge`; `TestEdge` without a starting point
+    returns 0) -/
+theorem count_returned (B : Polygon.Backend) (A : ℚ) (pl : Bool) (pre : List Op) (q : Op) (res : Result)
+    (h : (exec B A (run B A (init pl) pre) q).2 = some res) : res.num = countOf q (countV pre 0) := by
+  have hn := num_eq_count B A (init pl) pre
+  have h0 : (init pl).num = 0 := rfl
+  rw [h0] at hn
+  cases q with
+  | clear => simp [exec] at h
+  | addPoint => simp [exec] at h
+  | addEdge => simp [exec] at h
+  | compute rv sg =>
+    simp only [exec, Option.some.injEq] at h; subst h
+    unfold compute countOf; split_ifs <;> simp [hn]
+  | testPoint lat lon rv sg =>
+    simp only [exec, Option.some.injEq] at h; subst h
+    rw [← hn]; clear hn
+    generalize run B A (init pl) pre = st
+    unfold testPoint countOf; split_ifs <;> simp_all
+  | testEdge azi s rv sg =>
+    simp only [exec, Option.some.injEq] at h; subst h
+    rw [← hn]; clear hn
+    generalize run B A (init pl) pre = st
+    unfold testEdge countOf; split_ifs <;> simp_all
+
+/-- the same for the bit-level record -/
+theorem count_returned_record (B : Polygon.Backend) (A : F64) (pl : Bool) (pre : List Op) (q : Op) (res : PolygonF.ResultF)
+    (h : (PolygonF.exec B A (PolygonF.run B A (PolygonF.init pl) pre) q).2 = some res) : res.num = countOf q (countV pre 0) := by
+  have hn := num_eq_count_record B A (PolygonF.init pl) pre
+  have h0 : (PolygonF.init pl).num = 0 := rfl
+  rw [h0] at hn
+  cases q with
+  | clear => simp [PolygonF.exec] at h
+  | addPoint => simp [PolygonF.exec] at h
+  | addEdge => simp [PolygonF.exec] at h
+  | compute rv sg =>
+    simp only [PolygonF.exec, Option.some.injEq] at h; subst h
+    unfold PolygonF.compute countOf; split_ifs <;> simp [hn]
+  | testPoint lat lon rv sg =>
+    simp only [PolygonF.exec, Option.some.injEq] at h; subst h
+    rw [← hn]; clear hn
+    generalize PolygonF.run B A (PolygonF.init pl) pre = st
+    unfold PolygonF.testPoint countOf; split_ifs <;> simp_all
+  | testEdge azi s rv sg =>
+    simp only [PolygonF.exec, Option.some.injEq] at h; subst h
+    rw [← hn]; clear hn
+    generalize PolygonF.run B A (PolygonF.init pl) pre = st
+    unfold PolygonF.testEdge countOf; split_ifs <;> simp_all
+
+/-- what `countV` counts: a first point followed by `m` further `Add*` operations gives `m + 1` vertices;
+    edges before the first point are ignored -/
+theorem countV_adds (r : List Op) (n : ℕ) (hn : n ≠ 0) (ha : ∀ op ∈ r, op.isAdd = true) : countV r n = n + r.length := by
+  induction r generalizing n with
+  | nil => rfl
+  | cons op r ih =>
+    have h1 := ha op (by simp)
+    have h2 := fun n hn => ih n hn (fun o ho => ha o (List.mem_cons_of_mem _ ho))
+    cases op <;> simp_all [Op.isAdd, countV] <;> omega
+
+theorem countV_edge_first (r : List Op) (azi s : F64) : countV (.addEdge azi s :: r) 0 = countV r 0 := rfl
+
+
+/-! ### closed form of an arbitrary history; polyline mode (a) -/
+
+/-- one edge as the bookkeeping sees it: length, area term, crossing count -/
+structure EdgeRec where
+  s : ℚ
+  S : ℚ
+  cross : ℤ
+
+/-- the edges laid down by the `Add*` operations of a history (no `Clear`), `cur` = the current vertex if there is one:
+    a point after the first one is joined to its predecessor by the solver's inverse problem (crossings by `transit`), an
+    edge goes where the solver's direct problem says (crossings by `transitdirect`), an edge before the first point is
+    ignored -/
+def edgesOf (B : Polygon.Backend) : Option Vertex → List Op → List EdgeRec
+  | _, [] => []
+  | none, .addPoint lat lon :: r => edgesOf B (some (lat, lon)) r
+  | some p, .addPoint lat lon :: r =>
+      ⟨toRat (B.inverse p.1 p.2 lat lon).1, toRat (B.inverse p.1 p.2 lat lon).2, transit p.2 lon⟩ :: edgesOf B (some (lat, lon)) r
+  | none, .addEdge _ _ :: r => edgesOf B none r
+  | some p, .addEdge azi s :: r =>
+      ⟨toRat s, toRat (B.direct p.1 p.2 azi s).2.2, transitdirect p.2 (B.direct p.1 p.2 azi s).2.1⟩ ::
+        edgesOf B (some ((B.direct p.1 p.2 azi s).1, (B.direct p.1 p.2 azi s).2.1)) r
+  | c, .clear :: r => edgesOf B c r
+  | c, .compute .. :: r => edgesOf B c r
+  | c, .testPoint .. :: r => edgesOf B c r
+  | c, .testEdge .. :: r => edgesOf B c r
+
+/-- the current vertex of a state -/
+def curOf (st : State) : Option Vertex := if st.num = 0 then none else some (st.lat1, st.lon1)
+
+/-- **closed form of an arbitrary history** -/
+theorem run_closed_form (B : Polygon.Backend) (A : ℚ) (ops : List Op) (hc : ∀ op ∈ ops, op.isClear = false) (st : State) :
+    (run B A st ops).perimsum = st.perimsum + ((edgesOf B (curOf st) ops).map (·.s)).sum ∧
+    (run B A st ops).areasum = st.areasum + (if st.polyline then 0 else ((edgesOf B (curOf st) ops).map (·.S)).sum) ∧
+    (run B A st ops).crossings = st.crossings + (if st.polyline then 0 else ((edgesOf B (curOf st) ops).map (·.cross)).sum) ∧
+    (run B A st ops).polyline = st.polyline := by
+  induction ops generalizing st with
+  | nil => simp [run, edgesOf]
+  | cons op r ih =>
+    have hr := fun st => ih (fun o ho => hc o (List.mem_cons_of_mem _ ho)) st
+    have hop := hc op (by simp)
+    rw [run_cons]
+    obtain ⟨h1, h2, h3, h4⟩ := hr (exec B A st op).1
+    rw [h1, h2, h3, h4]
+    cases op with
+    | clear => simp [Op.isClear] at hop
+    | compute rv sg => simp only [exec, edgesOf]; exact ⟨trivial, rfl, rfl, trivial⟩
+    | testPoint lat lon rv sg => simp only [exec, edgesOf]; exact ⟨trivial, rfl, rfl, trivial⟩
+    | testEdge azi s rv sg => simp only [exec, edgesOf]; exact ⟨trivial, rfl, rfl, trivial⟩
+    | addPoint lat lon =>
+      by_cases h0 : st.num = 0
+      · simp [exec, addPoint, h0, curOf, edgesOf]
+      · cases hp : st.polyline <;> simp [exec, addPoint, h0, curOf, edgesOf, hp] <;> (try ring_nf) <;> (try simp)
+    | addEdge azi s =>
+      by_cases h0 : st.num = 0
+      · simp [exec, addEdge, h0, curOf, edgesOf]
+      · cases hp : st.polyline <;> simp [exec, addEdge, h0, curOf, edgesOf, hp] <;> (try ring_nf) <;> (try simp)
+
+/-- the edges of the polygon a history describes -/
+def historyEdges (B : Polygon.Backend) (ops : List Op) : List EdgeRec := edgesOf B none (effective ops)
+
+/-- sums of an arbitrary history (polygon mode): length, area term and crossing count of every edge laid down since the
+    last `Clear`, whatever was queried in between -/
+theorem sums_of_history (B : Polygon.Backend) (A : ℚ) (pl : Bool) (ops : List Op) :
+    (run B A (init pl) ops).perimsum = ((historyEdges B ops).map (·.s)).sum ∧
+    (run B A (init pl) ops).areasum = (if pl then 0 else ((historyEdges B ops).map (·.S)).sum) ∧
+    (run B A (init pl) ops).crossings = (if pl then 0 else ((historyEdges B ops).map (·.cross)).sum) ∧
+    (run B A (init pl) ops).polyline = pl ∧
+    (run B A (init pl) ops).num = countV ops 0 := by
+  have hc := run_closed_form B A (effective ops) (effective_no_clear_mem ops) (init pl)
+  rw [← history_independent] at hc
+  obtain ⟨h1, h2, h3, h4⟩ := hc
+  refine ⟨?_, ?_, ?_, h4, num_eq_count B A (init pl) ops⟩
+  · rw [h1]; simp [init, curOf, historyEdges]
+  · rw [h2]; simp [init, curOf, historyEdges]
+  · rw [h3]; simp [init, curOf, historyEdges]
+
+/-- **(a) polyline mode, state**: whatever the history, a polyline never touches the area sum or the crossing counter -/
+theorem polyline_never_touches_area (B : Polygon.Backend) (A : ℚ) (ops : List Op) :
+    (run B A (init true) ops).areasum = 0 ∧ (run B A (init true) ops).crossings = 0 := by
+  obtain ⟨_, h2, h3, _, _⟩ := sums_of_history B A true ops
+  exact ⟨by simpa using h2, by simpa using h3⟩
+
+/-- **(a) polyline mode, `Compute`**: after any history `Compute` returns the number of vertices and the sum of the lengths
+    of the edges laid down since the last `Clear` (the path is not closed) and does not write the area -/
+theorem polyline_compute (B : Polygon.Backend) (A : ℚ) (ops : List Op) (rv sg : Bool) :
+    (exec B A (run B A (init true) ops) (.compute rv sg)).2 =
+      some ⟨countV ops 0, some ((historyEdges B ops).map (·.s)).sum, none⟩ := by
+  obtain ⟨h1, _, _, h4, h5⟩ := sums_of_history B A true ops
+  have hf := fresh_run B A ops (init true) (fresh_init true)
+  simp only [exec, compute, h4, if_true]
+  split_ifs with hlt
+  · have := (hf hlt).1
+    rw [← h1, this, h5]
+  · rw [h1, h5]
+
+/-- **(a) polygon mode for comparison, `Compute`**: the perimeter is the sum of the edge lengths plus the closing edge, the
+    area is `AreaReduce` of the sum of the area terms plus the closing edge's, with all the crossings -/
+theorem polygon_compute (B : Polygon.Backend) (A : ℚ) (ops : List Op) (rv sg : Bool) (h2 : 2 ≤ countV ops 0) :
+    let st := run B A (init false) ops
+    let k := B.inverse st.lat1 st.lon1 st.lat0 st.lon0
+    (exec B A st (.compute rv sg)).2 =
+      some ⟨countV ops 0, some (((historyEdges B ops).map (·.s)).sum + toRat k.1),
+        some (some (areaReduce (((historyEdges B ops).map (·.S)).sum + toRat k.2) A
+          (((historyEdges B ops).map (·.cross)).sum + transit st.lon1 st.lon0) rv sg))⟩ := by
+  intro st k
+  obtain ⟨h1, h2', h3, h4, h5⟩ := sums_of_history B A false ops
+  have hn : ¬ st.num < 2 := by show ¬ (run B A (init false) ops).num < 2; rw [h5]; omega
+  simp only [exec, compute, hn, if_false]
+  have hp : st.polyline = false := h4
+  simp only [hp, Bool.false_eq_true, if_false]
+  show some (Result.mk (run B A (init false) ops).num _ _) = _
+  rw [h5, h1, h2', h3]; simp only [Bool.false_eq_true, if_false]; rfl
+
+/-- **(a) dataflow**: in polyline mode nothing that is returned or stored depends on the solver's area output `S12` (nor on
+    the second inverse problem of `TestPoint`): two solvers that agree on distances and positions give identical traces -/
+theorem polyline_S12_irrelevant (B B' : Polygon.Backend) (A : ℚ)
+    (hinv : ∀ a b c d, (B.inverse a b c d).1 = (B'.inverse a b c d).1)
+    (hdir : ∀ a b c d, (B.direct a b c d).1 = (B'.direct a b c d).1 ∧ (B.direct a b c d).2.1 = (B'.direct a b c d).2.1)
+    (ops : List Op) (st : State) (hp : st.polyline = true) :
+    trace B A st ops = trace B' A st ops := by
+  induction ops generalizing st with
+  | nil => rfl
+  | cons op r ih =>
+    have he : exec B A st op = exec B' A st op := by
+      cases op with
+      | clear => rfl
+      | addPoint lat lon => simp [exec, addPoint, hp, hinv]
+      | addEdge azi s => simp [exec, addEdge, hp, (hdir _ _ _ _).1, (hdir _ _ _ _).2]
+      | compute rv sg => simp [exec, compute, hp]
+      | testPoint lat lon rv sg => simp [exec, testPoint, hp, hinv]
+      | testEdge azi s rv sg => simp [exec, testEdge, hp]
+    simp only [trace, he]
+    rw [ih _ (by rw [exec_polyline]; exact hp)]
+
+/-- every query on a polyline leaves the area reference unwritten -/
+theorem polyline_results (B : Polygon.Backend) (A : ℚ) (pre : List Op) (q : Op) (res : Result)
+    (h : (exec B A (run B A (init true) pre) q).2 = some res) : res.area = none := by
+  have hp : (run B A (init true) pre).polyline = true := (sums_of_history B A true pre).2.2.2.1
+  generalize run B A (init true) pre = st at h hp
+  cases q with
+  | clear => simp [exec] at h
+  | addPoint => simp [exec] at h
+  | addEdge => simp [exec] at h
+  | compute rv sg => simp only [exec, Option.some.injEq] at h; subst h; simp [compute, hp]; split_ifs <;> rfl
+  | testPoint lat lon rv sg => simp only [exec, Option.some.injEq] at h; subst h; simp [testPoint, hp]; split_ifs <;> rfl
+  | testEdge azi s rv sg => simp only [exec, Option.some.injEq] at h; subst h; simp [testEdge, hp]; split_ifs <;> rfl
+
+
+/-! ### (c) a polygon built with `AddEdge` is the polygon through the vertices the solver's `Direct` returns -/
+
+/-- `AreaReduce` sees the crossing count only through its parity -/
+theorem areaReduce_parity (area A : ℚ) (c c' : ℤ) (h : c % 2 = c' % 2) (rv sg : Bool) :
+    areaReduce area A c rv sg = areaReduce area A c' rv sg := by
+  unfold areaReduce; rw [h]
+
+/-- two objects that differ at most in the value (not the parity) of the crossing counter -/
+structure Sim (a b : State) : Prop where
+  num : a.num = b.num
+  cross : a.crossings % 2 = b.crossings % 2
+  area : a.areasum = b.areasum
+  perim : a.perimsum = b.perimsum
+  lat0 : a.lat0 = b.lat0
+  lon0 : a.lon0 = b.lon0
+  lat1 : a.lat1 = b.lat1
+  lon1 : a.lon1 = b.lon1
+  poly : a.polyline = b.polyline
+
+theorem Sim.refl (a : State) : Sim a a := ⟨rfl, rfl, rfl, rfl, rfl, rfl, rfl, rfl, rfl⟩
+
+/-- such objects answer every query identically … -/
+theorem sim_query (B : Polygon.Backend) (A : ℚ) {a b : State} (h : Sim a b) (q : Op) : (exec B A a q).2 = (exec B A b q).2 := by
+  obtain ⟨h1, h2, h3, h4, h5, h6, h7, h8, h9⟩ := h
+  cases q with
+  | clear => rfl
+  | addPoint => rfl
+  | addEdge => rfl
+  | compute rv sg =>
+    simp only [exec, compute, h1, h3, h4, h5, h6, h7, h8, h9]
+    rw [areaReduce_parity _ A (a.crossings + _) (b.crossings + transit b.lon1 b.lon0) (by omega)]
+  | testPoint lat lon rv sg =>
+    simp only [exec, testPoint, h1, h3, h4, h5, h6, h7, h8, h9]
+    rw [areaReduce_parity _ A (a.crossings + _ + _) (b.crossings + transit b.lon1 lon + transit lon b.lon0) (by omega)]
+  | testEdge azi s rv sg =>
+    simp only [exec, testEdge, h1, h3, h4, h5, h6, h7, h8, h9]
+    rw [areaReduce_parity _ A (a.crossings + _ + _) (b.crossings + transitdirect b.lon1 (B.direct b.lat1 b.lon1 azi s).2.1 +
+      transit (B.direct b.lat1 b.lon1 azi s).2.1 b.lon0) (by omega)]
+
+/-- … and stay so under every operation -/
+theorem sim_exec (B : Polygon.Backend) (A : ℚ) {a b : State} (h : Sim a b) (op : Op) : Sim (exec B A a op).1 (exec B A b op).1 := by
+  obtain ⟨h1, h2, h3, h4, h5, h6, h7, h8, h9⟩ := h
+  cases op with
+  | clear => simp only [exec, clear, h9]; exact Sim.refl _
+  | compute rv sg => exact ⟨h1, h2, h3, h4, h5, h6, h7, h8, h9⟩
+  | testPoint lat lon rv sg => exact ⟨h1, h2, h3, h4, h5, h6, h7, h8, h9⟩
+  | testEdge azi s rv sg => exact ⟨h1, h2, h3, h4, h5, h6, h7, h8, h9⟩
+  | addPoint lat lon =>
+    by_cases h0 : b.num = 0
+    · simp only [exec, addPoint, h1, h0, if_true]
+      exact ⟨rfl, h2, h3, h4, rfl, rfl, rfl, rfl, h9⟩
+    · simp only [exec, addPoint, h1, h0, if_false, h3, h4, h7, h8, h9]
+      refine ⟨rfl, ?_, rfl, rfl, h5, h6, rfl, rfl, rfl⟩
+      show (if b.polyline then a.crossings else a.crossings + transit b.lon1 lon) % 2 = (if b.polyline then b.crossings else b.crossings + transit b.lon1 lon) % 2
+      split_ifs <;> omega
+  | addEdge azi s =>
+    by_cases h0 : b.num = 0
+    · simp only [exec, addEdge, h1, h0, if_true]
+      exact ⟨h1, h2, h3, h4, h5, h6, h7, h8, h9⟩
+    · simp only [exec, addEdge, h1, h0, if_false, h3, h4, h7, h8, h9]
+      refine ⟨rfl, ?_, rfl, rfl, h5, h6, rfl, rfl, rfl⟩
+      show (if b.polyline then a.crossings else a.crossings + _) % 2 = (if b.polyline then b.crossings else b.crossings + _) % 2
+      split_ifs <;> omega
+
+/-- the solver contract for one edge: the inverse problem between the start `p` of the edge and the end its direct problem
+    returns gives back the edge (same length, same area term), and the two crossing counters agree in parity
+    (`transitdirect_transit_parity` below: true whenever the end longitude is the start longitude plus `AngDiff`) -/
+def Consistent (B : Polygon.Backend) (p : Vertex) (azi s : F64) : Prop :=
+  toRat (B.inverse p.1 p.2 (B.direct p.1 p.2 azi s).1 (B.direct p.1 p.2 azi s).2.1).1 = toRat s ∧
+  toRat (B.inverse p.1 p.2 (B.direct p.1 p.2 azi s).1 (B.direct p.1 p.2 azi s).2.1).2 = toRat (B.direct p.1 p.2 azi s).2.2 ∧
+  (transitdirect p.2 (B.direct p.1 p.2 azi s).2.1 - transit p.2 (B.direct p.1 p.2 azi s).2.1) % 2 = 0
+
+/-- one step: adding the edge and adding the point it leads to keep the objects similar -/
+theorem sim_edge_point (B : Polygon.Backend) (A : ℚ) {a b : State} (h : Sim a b) (azi s : F64)
+    (hc : b.num ≠ 0 → Consistent B (b.lat1, b.lon1) azi s) :
+    Sim (exec B A a (.addEdge azi s)).1
+      (if b.num = 0 then b else (exec B A b (.addPoint (B.direct b.lat1 b.lon1 azi s).1 (B.direct b.lat1 b.lon1 azi s).2.1)).1) := by
+  obtain ⟨h1, h2, h3, h4, h5, h6, h7, h8, h9⟩ := h
+  by_cases h0 : b.num = 0
+  · simp only [exec, addEdge, h1, h0, if_true]
+    exact ⟨h1, h2, h3, h4, h5, h6, h7, h8, h9⟩
+  · obtain ⟨c1, c2, c3⟩ := hc h0
+    simp only [exec, addEdge, addPoint, h1, h0, if_false, h3, h4, h7, h8, h9, c1, c2]
+    refine ⟨rfl, ?_, rfl, rfl, h5, h6, rfl, rfl, rfl⟩
+    show (if b.polyline then a.crossings else a.crossings + _) % 2 = (if b.polyline then b.crossings else b.crossings + _) % 2
+    split_ifs
+    · exact h2
+    · simp only at c3; omega
+
+/-- the history in which every edge has been replaced by the point it leads to (`cur` = the current vertex) -/
+def pointsFor (B : Polygon.Backend) : Option Vertex → List Op → List Op
+  | _, [] => []
+  | _, .clear :: r => .clear :: pointsFor B none r
+  | _, .addPoint lat lon :: r => .addPoint lat lon :: pointsFor B (some (lat, lon)) r
+  | none, .addEdge _ _ :: r => pointsFor B none r
+  | some p, .addEdge azi s :: r =>
+      .addPoint (B.direct p.1 p.2 azi s).1 (B.direct p.1 p.2 azi s).2.1 ::
+        pointsFor B (some ((B.direct p.1 p.2 azi s).1, (B.direct p.1 p.2 azi s).2.1)) r
+  | c, .compute rv sg :: r => .compute rv sg :: pointsFor B c r
+  | c, .testPoint lat lon rv sg :: r => .testPoint lat lon rv sg :: pointsFor B c r
+  | c, .testEdge azi s rv sg :: r => .testEdge azi s rv sg :: pointsFor B c r
+
+/-- the solver contract along a history: every edge that is actually laid down is `Consistent` -/
+def AllConsistent (B : Polygon.Backend) : Option Vertex → List Op → Prop
+  | _, [] => True
+  | _, .clear :: r => AllConsistent B none r
+  | _, .addPoint lat lon :: r => AllConsistent B (some (lat, lon)) r
+  | none, .addEdge _ _ :: r => AllConsistent B none r
+  | some p, .addEdge azi s :: r =>
+      Consistent B p azi s ∧ AllConsistent B (some ((B.direct p.1 p.2 azi s).1, (B.direct p.1 p.2 azi s).2.1)) r
+  | c, .compute _ _ :: r => AllConsistent B c r
+  | c, .testPoint _ _ _ _ :: r => AllConsistent B c r
+  | c, .testEdge _ _ _ _ :: r => AllConsistent B c r
+
+/-- what the queries of a history return, in order -/
+def answers (B : Polygon.Backend) (A : ℚ) (st : State) (ops : List Op) : List Result :=
+  (trace B A st ops).filterMap (·.2)
+
+theorem answers_cons (B : Polygon.Backend) (A : ℚ) (st : State) (op : Op) (r : List Op) :
+    answers B A st (op :: r) = ((exec B A st op).2.toList) ++ answers B A (exec B A st op).1 r := by
+  unfold answers
+  simp only [trace, List.filterMap_cons]
+  cases (exec B A st op).2 <;> simp
+
+/-- **(c) edges as points**: in every history (any mixture of the six operations) whose laid-down edges satisfy the solver
+    contract, replacing each `AddEdge` by `AddPoint` of the vertex the solver's direct problem returns changes no answer
+    of any query, and the final objects differ at most in the value (not the parity) of the crossing counter -/
+theorem edges_as_points (B : Polygon.Backend) (A : ℚ) (ops : List Op) (a b : State) (h : Sim a b)
+    (hcons : AllConsistent B (curOf b) ops) :
+    answers B A a ops = answers B A b (pointsFor B (curOf b) ops) ∧
+    Sim (run B A a ops) (run B A b (pointsFor B (curOf b) ops)) := by
+  induction ops generalizing a b with
+  | nil => exact ⟨rfl, h⟩
+  | cons op r ih =>
+    have hq := sim_query B A h op
+    cases op with
+    | clear =>
+      have hs := sim_exec B A h .clear
+      have hcur : curOf (exec B A b .clear).1 = none := by simp [exec, clear, init, curOf]
+      have := ih _ _ hs (by rw [hcur]; exact hcons)
+      rw [hcur] at this
+      simp only [pointsFor, answers_cons, run_cons]
+      exact ⟨by rw [this.1, hq], this.2⟩
+    | addPoint lat lon =>
+      have hs := sim_exec B A h (.addPoint lat lon)
+      have hcur : curOf (exec B A b (.addPoint lat lon)).1 = some (lat, lon) := by
+        by_cases h0 : b.num = 0 <;> simp [exec, addPoint, curOf, h0]
+      have := ih _ _ hs (by rw [hcur]; exact hcons)
+      rw [hcur] at this
+      simp only [pointsFor, answers_cons, run_cons]
+      exact ⟨by rw [this.1, hq], this.2⟩
+    | compute rv sg =>
+      have := ih _ _ (sim_exec B A h (.compute rv sg)) hcons
+      simp only [pointsFor, answers_cons, run_cons]
+      exact ⟨by rw [hq]; exact congrArg _ this.1, this.2⟩
+    | testPoint lat lon rv sg =>
+      have := ih _ _ (sim_exec B A h (.testPoint lat lon rv sg)) hcons
+      simp only [pointsFor, answers_cons, run_cons]
+      exact ⟨by rw [hq]; exact congrArg _ this.1, this.2⟩
+    | testEdge azi s rv sg =>
+      have := ih _ _ (sim_exec B A h (.testEdge azi s rv sg)) hcons
+      simp only [pointsFor, answers_cons, run_cons]
+      exact ⟨by rw [hq]; exact congrArg _ this.1, this.2⟩
+    | addEdge azi s =>
+      by_cases h0 : b.num = 0
+      · have hcur : curOf b = none := by simp [curOf, h0]
+        rw [hcur] at hcons ⊢
+        have hs := sim_edge_point B A h azi s (fun hne => absurd h0 hne)
+        rw [if_pos h0] at hs
+        have := ih _ _ hs (by rw [hcur]; exact hcons)
+        rw [hcur] at this
+        simp only [pointsFor, answers_cons, run_cons]
+        exact ⟨by simpa [exec] using this.1, this.2⟩
+      · have hcur : curOf b = some (b.lat1, b.lon1) := by simp [curOf, h0]
+        rw [hcur] at hcons ⊢
+        obtain ⟨hc1, hc2⟩ := hcons
+        have hs := sim_edge_point B A h azi s (fun _ => hc1)
+        rw [if_neg h0] at hs
+        have hcur' : curOf (exec B A b (.addPoint (B.direct b.lat1 b.lon1 azi s).1 (B.direct b.lat1 b.lon1 azi s).2.1)).1
+            = some ((B.direct b.lat1 b.lon1 azi s).1, (B.direct b.lat1 b.lon1 azi s).2.1) := by
+          simp [exec, addPoint, curOf, h0]
+        have := ih _ _ hs (by rw [hcur']; exact hc2)
+        rw [hcur'] at this
+        simp only [pointsFor, answers_cons, run_cons]
+        exact ⟨by simpa [exec] using this.1, this.2⟩
+
+
+/-! ### … hence everything proved about `AddPoint`-built polygons holds for `AddEdge`-built ones -/
+
+/-- the solver seen as the edge function of `polygon` / `polygon_eq` / `start_independent` / `cut_additive` -/
+def toQ (B : Polygon.Backend) : Backend :=
+  fun p q => (toRat (B.inverse p.1 p.2 q.1 q.2).1, toRat (B.inverse p.1 p.2 q.1 q.2).2)
+
+def pointOps (vs : List Vertex) : List Op := vs.map fun q => Op.addPoint q.1 q.2
+def edgeOps (es : List (F64 × F64)) : List Op := es.map fun e => Op.addEdge e.1 e.2
+
+/-- the vertices the solver's direct problem returns along a chain of edges starting at `p` -/
+def dverts (B : Polygon.Backend) : Vertex → List (F64 × F64) → List Vertex
+  | _, [] => []
+  | p, e :: es => ((B.direct p.1 p.2 e.1 e.2).1, (B.direct p.1 p.2 e.1 e.2).2.1) ::
+      dverts B ((B.direct p.1 p.2 e.1 e.2).1, (B.direct p.1 p.2 e.1 e.2).2.1) es
+
+theorem pointsFor_edges (B : Polygon.Backend) (p : Vertex) (es : List (F64 × F64)) :
+    pointsFor B (some p) (edgeOps es) = pointOps (dverts B p es) := by
+  induction es generalizing p with
+  | nil => rfl
+  | cons e es ih => simp only [edgeOps, List.map_cons, pointsFor, dverts, pointOps] at ih ⊢; rw [ih]
+
+theorem run_points (B : Polygon.Backend) (A : ℚ) (r : List Vertex) (st : State) (p : Vertex) (hn : st.num ≠ 0)
+    (hp : (st.lat1, st.lon1) = p) :
+    run B A st (pointOps r) = (r.foldl (step (toQ B)) (st, p)).1 ∧
+    ((r.foldl (step (toQ B)) (st, p)).1.lat1, (r.foldl (step (toQ B)) (st, p)).1.lon1) = (r.foldl (step (toQ B)) (st, p)).2 ∧
+    (r.foldl (step (toQ B)) (st, p)).1.lat0 = st.lat0 ∧ (r.foldl (step (toQ B)) (st, p)).1.lon0 = st.lon0 := by
+  induction r generalizing st p with
+  | nil => exact ⟨rfl, hp, rfl, rfl⟩
+  | cons q r ih =>
+    have hstep : step (toQ B) (st, p) q = ((exec B A st (.addPoint q.1 q.2)).1, q) := by
+      subst hp; rfl
+    have hnew : (exec B A st (.addPoint q.1 q.2)).1.num ≠ 0 := by simp [exec, addPoint, hn]
+    have hcur : ((exec B A st (.addPoint q.1 q.2)).1.lat1, (exec B A st (.addPoint q.1 q.2)).1.lon1) = q := by
+      simp [exec, addPoint, hn]
+    have h0 : (exec B A st (.addPoint q.1 q.2)).1.lat0 = st.lat0 ∧ (exec B A st (.addPoint q.1 q.2)).1.lon0 = st.lon0 := by
+      simp [exec, addPoint, hn]
+    obtain ⟨i1, i2, i3, i4⟩ := ih _ q hnew hcur
+    simp only [pointOps, List.map_cons, List.foldl_cons, run_cons, hstep] at i1 ⊢
+    exact ⟨i1, i2, by rw [i3, h0.1], by rw [i4, h0.2]⟩
+
+/-- `Clear; AddPoint v₀; …; AddPoint vₙ₋₁; Compute` in the history machine is `polygon` -/
+theorem compute_points (B : Polygon.Backend) (A : ℚ) (rv sg : Bool) (v : Vertex) (r : List Vertex) :
+    (exec B A (run B A (init false) (pointOps (v :: r))) (.compute rv sg)).2 = some (polygon (toQ B) A rv sg (v :: r)) := by
+  have hfirst : (exec B A (init false) (.addPoint v.1 v.2)).1 = addPoint (init false) v.1 v.2 0 0 := by
+    simp [exec, addPoint, init]
+  have hn : (addPoint (init false) v.1 v.2 0 0).num ≠ 0 := by simp [addPoint, init]
+  obtain ⟨i1, i2, i3, i4⟩ := run_points B A r (addPoint (init false) v.1 v.2 0 0) v hn (by simp [addPoint, init])
+  have hrun : run B A (init false) (pointOps (v :: r)) = (r.foldl (step (toQ B)) (addPoint (init false) v.1 v.2 0 0, v)).1 := by
+    simp only [pointOps, List.map_cons, run_cons, hfirst] at i1 ⊢; exact i1
+  rw [hrun]
+  simp only [exec, polygon]
+  have e1 := congrArg Prod.fst i2
+  have e2 := congrArg Prod.snd i2
+  simp only at e1 e2
+  have l0 : (addPoint (init false) v.1 v.2 0 0).lat0 = v.1 := by simp [addPoint, init]
+  have l1 : (addPoint (init false) v.1 v.2 0 0).lon0 = v.2 := by simp [addPoint, init]
+  rw [i3, i4, l0, l1, e1, e2]; rfl
+
+/-- **(c), closed polygons**: `AddPoint v₀; AddEdge e₁; …; AddEdge eₙ; Compute` returns what the `AddPoint`-built polygon
+    through `v₀` and the vertices the direct problem returns gives — so `polygon_eq`, `start_independent`,
+    `reverse_traversal`, `cut_additive` and the relabelling theorems speak about `AddEdge`-built polygons too -/
+theorem edge_polygon_is_point_polygon (B : Polygon.Backend) (A : ℚ) (rv sg : Bool) (v : Vertex) (es : List (F64 × F64))
+    (hcons : AllConsistent B (some v) (edgeOps es)) :
+    (exec B A (run B A (init false) (.addPoint v.1 v.2 :: edgeOps es)) (.compute rv sg)).2
+      = some (polygon (toQ B) A rv sg (v :: dverts B v es)) := by
+  have h := edges_as_points B A (.addPoint v.1 v.2 :: edgeOps es) (init false) (init false) (Sim.refl _)
+    (by simpa [curOf, init, AllConsistent] using hcons)
+  have hp : pointsFor B (curOf (init false)) (.addPoint v.1 v.2 :: edgeOps es) = pointOps (v :: dverts B v es) := by
+    simp only [pointsFor, pointsFor_edges]; rfl
+  rw [hp] at h
+  rw [sim_query B A h.2, compute_points]
+
+/-- non-vacuity of the solver contract: a toy solver whose direct problem lands on `(azi, s)` and whose inverse problem
+    reports `(lon2, lon2 − lon1)`; the history crosses longitude 360 eastwards with an edge, is cleared, starts with an
+    ignored edge and crosses longitude 0 eastwards -/
+def toyD : Polygon.Backend where
+  inverse _ lon1 _ lon2 := (lon2, lon2 - lon1)
+  direct _ lon1 azi s := (azi, s, s - lon1)
+
+example : AllConsistent toyD none
+    [.addPoint (F64.ofInt 0) (F64.ofInt 350), .addEdge (F64.ofInt 10) (F64.ofInt 370), .compute false true,
+     .addEdge (F64.ofInt 20) (F64.ofInt 380), .clear, .addEdge (F64.ofInt 1) (F64.ofInt 2),
+     .addPoint (F64.ofInt 5) (F64.ofInt (-5)), .testEdge (F64.ofInt 7) (F64.ofInt 3) true true, .addEdge (F64.ofInt 7) (F64.ofInt 3)] := by
+  simp only [AllConsistent, Consistent, toyD, and_true, true_and]
+  decide +kernel
+
+
+/-- **why the two crossing counters agree in parity**: when the end longitude handed to `transitdirect` is the start
+    longitude plus the signed difference `d = AngDiff` (the unrolled longitude `LONG_UNROLL` asks the solver for), then
+    `transitdirect` (through the IEEE remainders `r₁, r₂` modulo 720) and `transit` (through the normalised longitudes
+    `n₁, n₂`) count the same crossings modulo 2 -/
+theorem transitdirect_transit_parity {d n1 n2 : ℚ} {k : ℤ} (e : Edge d n1 n2 k) (x1 x2 r1 r2 : ℚ) (i j1 j2 : ℤ)
+    (hx1 : x1 = n1 + 360 * (i:ℚ)) (hx2 : x2 = x1 + d)
+    (h1 : -360 ≤ r1 ∧ r1 ≤ 360) (h2 : -360 ≤ r2 ∧ r2 ≤ 360) (e1 : x1 = r1 + 720 * (j1:ℚ)) (e2 : x2 = r2 + 720 * (j2:ℚ)) :
+    transitdirectQ r1 r2 % 2 = transitQ d n1 n2 % 2 := by
+  rw [transitdirect_parity x1 x2 r1 r2 j1 j2 h1 h2 e1 e2, transit_eq_floor e]
+  have a1 : ⌊x1 / 360⌋ = ⌊n1 / 360⌋ + i := by
+    rw [hx1, show (n1 + 360 * (i:ℚ)) / 360 = n1 / 360 + (i:ℚ) by ring, Int.floor_add_intCast]
+  have a2 : ⌊x2 / 360⌋ = ⌊(n1 + d) / 360⌋ + i := by
+    rw [hx2, hx1, show (n1 + 360 * (i:ℚ) + d) / 360 = (n1 + d) / 360 + (i:ℚ) by ring, Int.floor_add_intCast]
+  rw [a1, a2]; congr 1; ring
+
+/-- non-vacuity: the edge from longitude 350 (= −10 normalised, `i = 1`) east by 20° to 370: both counters give 1 -/
+example : Edge 20 (-10) 10 0 ∧ (350 : ℚ) = -10 + 360 * ((1:ℤ):ℚ) ∧ (370 : ℚ) = 350 + 20 ∧
+    (350 : ℚ) = 350 + 720 * ((0:ℤ):ℚ) ∧ (370 : ℚ) = -350 + 720 * ((1:ℤ):ℚ) ∧ transitdirectQ 350 (-350) = 1 ∧ transitQ 20 (-10) 10 = 1 := by
+  refine ⟨⟨by norm_num, by norm_num, by norm_num, by norm_num⟩, by norm_num, by norm_num, by norm_num, by norm_num, by decide +kernel, by decide +kernel⟩
+
+
+/-! ### the bit-level record and the exact-sum model -/
+
+/-- **(a) for the concrete record**: whatever the history, both words of `_areasum` of a polyline stay `+0` and
+    `_crossings` stays 0 -/
+theorem polyline_never_touches_area_record (B : Polygon.Backend) (A : F64) (ops : List Op) :
+    (PolygonF.run B A (PolygonF.init true) ops).areasum = Accum.set 0 ∧
+    (PolygonF.run B A (PolygonF.init true) ops).crossings = 0 ∧
+    (PolygonF.run B A (PolygonF.init true) ops).polyline = true := by
+  have key : ∀ (ops : List Op) (st : PolygonF.StateF), st.areasum = Accum.set 0 → st.crossings = 0 → st.polyline = true →
+      (PolygonF.run B A st ops).areasum = Accum.set 0 ∧ (PolygonF.run B A st ops).crossings = 0 ∧
+      (PolygonF.run B A st ops).polyline = true := by
+    intro ops
+    induction ops with
+    | nil => intro st h1 h2 h3; exact ⟨h1, h2, h3⟩
+    | cons op r ih =>
+      intro st h1 h2 h3
+      have hr : PolygonF.run B A st (op :: r) = PolygonF.run B A (PolygonF.exec B A st op).1 r := rfl
+      rw [hr]
+      apply ih
+      · cases op <;> simp only [PolygonF.exec, PolygonF.clear, PolygonF.init, PolygonF.addPoint, PolygonF.addEdge] <;>
+          (try split_ifs) <;> simp_all
+      · cases op <;> simp only [PolygonF.exec, PolygonF.clear, PolygonF.init, PolygonF.addPoint, PolygonF.addEdge] <;>
+          (try split_ifs) <;> simp_all
+      · rw [execF_polyline]; exact h3
+  exact key ops _ rfl rfl rfl
+
+/-- the discrete part of the record — count, crossing counter, the four coordinates, the mode — is the same in the
+    bit-level record and in the exact-sum model, for every history and every solver (the two differ only in how the
+    sums are held) -/
+structure SameDiscrete (st : State) (sf : PolygonF.StateF) : Prop where
+  num : st.num = sf.num
+  cross : st.crossings = sf.crossings
+  lat0 : st.lat0 = sf.lat0
+  lon0 : st.lon0 = sf.lon0
+  lat1 : st.lat1 = sf.lat1
+  lon1 : st.lon1 = sf.lon1
+  poly : st.polyline = sf.polyline
+
+theorem record_discrete_agrees (B : Polygon.Backend) (A : ℚ) (AF : F64) (ops : List Op) (st : State) (sf : PolygonF.StateF)
+    (h : SameDiscrete st sf) : SameDiscrete (run B A st ops) (PolygonF.run B AF sf ops) := by
+  induction ops generalizing st sf with
+  | nil => exact h
+  | cons op r ih =>
+    have hr : PolygonF.run B AF sf (op :: r) = PolygonF.run B AF (PolygonF.exec B AF sf op).1 r := rfl
+    rw [run_cons, hr]
+    apply ih
+    obtain ⟨h1, h2, h3, h4, h5, h6, h7⟩ := h
+    cases op with
+    | clear => simp only [exec, PolygonF.exec, clear, PolygonF.clear, h7]; exact ⟨rfl, rfl, rfl, rfl, rfl, rfl, rfl⟩
+    | compute rv sg => exact ⟨h1, h2, h3, h4, h5, h6, h7⟩
+    | testPoint lat lon rv sg => exact ⟨h1, h2, h3, h4, h5, h6, h7⟩
+    | testEdge azi s rv sg => exact ⟨h1, h2, h3, h4, h5, h6, h7⟩
+    | addPoint lat lon =>
+      by_cases h0 : sf.num = 0
+      · simp only [exec, PolygonF.exec, addPoint, PolygonF.addPoint, h1, h0, if_true]
+        exact ⟨rfl, h2, rfl, rfl, rfl, rfl, h7⟩
+      · simp only [exec, PolygonF.exec, addPoint, PolygonF.addPoint, h1, h0, if_false, h2, h6, h7]
+        exact ⟨rfl, rfl, h3, h4, rfl, rfl, rfl⟩
+    | addEdge azi s =>
+      by_cases h0 : sf.num = 0
+      · simp only [exec, PolygonF.exec, addEdge, PolygonF.addEdge, h1, h0, if_true]
+        exact ⟨h1, h2, h3, h4, h5, h6, h7⟩
+      · simp only [exec, PolygonF.exec, addEdge, PolygonF.addEdge, h1, h0, if_false, h2, h5, h6, h7]
+        exact ⟨rfl, rfl, h3, h4, rfl, rfl, rfl⟩
+
+
+section AccumulatorLevel
+open GeoVerif.Accum
+
+/-! ### (d) `AreaReduce` on the two-word accumulator: the four (reverse, sign) outputs -/
+
+/-- the `remainder` step is C16's `Accumulator::remainder` -/
+theorem accRemainder_eq (a : Acc) (y : F64) : accRemainder a y = Accum.remainder a y := rfl
+
+/-- the three stages (as for the exact-arithmetic `areaReduce`: `areaReduce_stages`) -/
+theorem areaReduceAcc_stages (a : Acc) (A : F64) (c : ℤ) (rv sg : Bool) :
+    areaReduceAcc a A c rv sg = windowAcc A sg (orientAcc rv (adjAcc a A c)) := rfl
+
+/-- flipping `reverse` negates the oriented, reduced sum *exactly* (both words) -/
+theorem orientAcc_flip (rv : Bool) (a : Acc) : orientAcc (!rv) a = negate (orientAcc rv a) := by
+  cases rv <;> simp [orientAcc, negate_negate]
+
+/-- the result is the oriented reduced sum, or that sum with `A` added or subtracted by one `Accumulator::Add` -/
+theorem areaReduceAcc_cases (a : Acc) (A : F64) (c : ℤ) (rv sg : Bool) :
+    areaReduceAcc a A c rv sg = orientAcc rv (adjAcc a A c) ∨
+    areaReduceAcc a A c rv sg = Accum.sub (orientAcc rv (adjAcc a A c)) A ∨
+    areaReduceAcc a A c rv sg = Accum.add (orientAcc rv (adjAcc a A c)) A := by
+  rw [areaReduceAcc_stages]; unfold windowAcc
+  split_ifs <;> simp
+
+/-- the signed window leaves `x` alone: `¬ x > A/2` and `¬ x ≤ −A/2`, as the code tests them -/
+def InSigned (A x : F64) : Prop := F64.gt x (A / 2) = false ∧ F64.le x (F64.neg A / 2) = false
+/-- the unsigned window leaves `x` alone: `¬ x ≥ A` and `¬ x < 0` -/
+def InUnsigned (A x : F64) : Prop := F64.ge x A = false ∧ F64.lt x 0 = false
+
+/-- **`A(reverse, signed) = − A(not reverse, signed)` exactly, on both words**, whenever the reduced sum is strictly inside
+    `(−A/2, A/2)` (at `±A/2` both results are `+A/2`: `areaReduce_flip`) -/
+theorem areaReduceAcc_signed_flip (a : Acc) (A : F64) (c : ℤ) (rv : Bool)
+    (h1 : InSigned A (adjAcc a A c).s) (h2 : InSigned A (F64.neg (adjAcc a A c).s)) :
+    areaReduceAcc a A c (!rv) true = negate (areaReduceAcc a A c rv true) := by
+  have hw : ∀ o : Acc, InSigned A o.s → windowAcc A true o = o := by
+    intro o h; unfold windowAcc; simp [h.1, h.2]
+  have hs : ∀ rv, InSigned A (orientAcc rv (adjAcc a A c)).s := by
+    intro rv; cases rv
+    · simpa [orientAcc, negate] using h2
+    · simpa [orientAcc] using h1
+  rw [areaReduceAcc_stages, areaReduceAcc_stages, hw _ (hs _), hw _ (hs _), orientAcc_flip]
+
+/-- **unsigned = signed** when the oriented reduced sum is non-negative: the same accumulator, word for word -/
+theorem areaReduceAcc_unsigned_eq_signed (a : Acc) (A : F64) (c : ℤ) (rv : Bool)
+    (h1 : InSigned A (orientAcc rv (adjAcc a A c)).s) (h2 : InUnsigned A (orientAcc rv (adjAcc a A c)).s) :
+    areaReduceAcc a A c rv false = areaReduceAcc a A c rv true := by
+  rw [areaReduceAcc_stages, areaReduceAcc_stages]; unfold windowAcc
+  simp [h1.1, h1.2, h2.1, h2.2]
+
+/-- **`A(reverse, unsigned) = A0 − A(not reverse, unsigned)` on the accumulator level**: when the oriented reduced sum is
+    negative, the unsigned result is *the accumulator* obtained by negating the other orientation's result (exactly) and
+    adding `A0` to it with one `Accumulator::Add` -/
+theorem areaReduceAcc_unsigned_complement (a : Acc) (A : F64) (c : ℤ) (rv : Bool)
+    (hneg : F64.lt (orientAcc rv (adjAcc a A c)).s 0 = true) (hlt : F64.ge (orientAcc rv (adjAcc a A c)).s A = false)
+    (h' : InUnsigned A (orientAcc (!rv) (adjAcc a A c)).s) :
+    areaReduceAcc a A c rv false = Accum.add (negate (areaReduceAcc a A c (!rv) false)) A := by
+  have e1 : areaReduceAcc a A c (!rv) false = orientAcc (!rv) (adjAcc a A c) := by
+    rw [areaReduceAcc_stages]; unfold windowAcc; simp [h'.1, h'.2]
+  have e2 : areaReduceAcc a A c rv false = Accum.add (orientAcc rv (adjAcc a A c)) A := by
+    rw [areaReduceAcc_stages]; unfold windowAcc; simp [hneg, hlt]
+  rw [e1, e2, orientAcc_flip, negate_negate]
+
+/-- non-vacuity (`A0 = 16`, the sum `(3, 0)`, no crossings): the signed results are `(−3, −0)` and `(3, 0)`; the unsigned
+    result for `reverse = false` is the accumulator `(13, 0) = 16 + (−3)`, the one for `reverse = true` is `(3, 0)` -/
+example : InSigned (F64.ofInt 16) (adjAcc ⟨F64.ofInt 3, 0⟩ (F64.ofInt 16) 0).s ∧
+    InSigned (F64.ofInt 16) (F64.neg (adjAcc ⟨F64.ofInt 3, 0⟩ (F64.ofInt 16) 0).s) ∧
+    F64.lt (orientAcc false (adjAcc ⟨F64.ofInt 3, 0⟩ (F64.ofInt 16) 0)).s 0 = true ∧
+    F64.ge (orientAcc false (adjAcc ⟨F64.ofInt 3, 0⟩ (F64.ofInt 16) 0)).s (F64.ofInt 16) = false ∧
+    InUnsigned (F64.ofInt 16) (orientAcc true (adjAcc ⟨F64.ofInt 3, 0⟩ (F64.ofInt 16) 0)).s ∧
+    F64.same (areaReduceAcc ⟨F64.ofInt 3, 0⟩ (F64.ofInt 16) 0 false false).s (F64.ofInt 13) = true := by
+  unfold InSigned InUnsigned; decide +kernel
+
+/-- **… and in value**: under the hypotheses of `areaReduceAcc_unsigned_complement`, with representable words of magnitude
+    `≤ 2^1016`, the unsigned results for the two orientations add up to `A0` up to the single rounding of that one
+    `Accumulator::Add` (C16 `accum_add_step`: at most `2^-53` of its low-order part) -/
+theorem areaReduceAcc_unsigned_complement_held (a : Acc) (A : F64) (c : ℤ) (rv : Bool)
+    (hneg : F64.lt (orientAcc rv (adjAcc a A c)).s 0 = true) (hlt : F64.ge (orientAcc rv (adjAcc a A c)).s A = false)
+    (h' : InUnsigned A (orientAcc (!rv) (adjAcc a A c)).s)
+    (hs : F64.IsRep (orientAcc rv (adjAcc a A c)).s) (ht : F64.IsRep (orientAcc rv (adjAcc a A c)).t) (hA : F64.IsRep A)
+    (bs : |(orientAcc rv (adjAcc a A c)).s.val| ≤ (2:ℚ) ^ (1016:ℤ)) (bt : |(orientAcc rv (adjAcc a A c)).t.val| ≤ (2:ℚ) ^ (1016:ℤ))
+    (bA : |A.val| ≤ (2:ℚ) ^ (1016:ℤ)) :
+    let o := orientAcc rv (adjAcc a A c)
+    let p := MathF.sum A o.t
+    let q := MathF.sum p.1 o.s
+    |heldQ (areaReduceAcc a A c rv false) + heldQ (areaReduceAcc a A c (!rv) false) - A.val|
+      ≤ max (|q.2.val + p.2.val| * (2:ℚ) ^ (-(53:ℤ))) ((2:ℚ) ^ (-(1075:ℤ))) := by
+  intro o p q
+  have e1 : areaReduceAcc a A c (!rv) false = negate o := by
+    rw [areaReduceAcc_stages]; unfold windowAcc; simp [h'.1, h'.2]; exact orientAcc_flip rv _
+  have e2 : areaReduceAcc a A c rv false = Accum.add o A := by
+    rw [areaReduceAcc_stages]; unfold windowAcc; simp [hneg, hlt]; rfl
+  have key := (GeoVerif.Props.C16.accum_add_step o A hs ht hA bs bt bA).2.2.2.2
+  rw [e1, e2, heldQ_negate]
+  have : heldQ (Accum.add o A) + -heldQ o - A.val = (Accum.add o A).s.val + (Accum.add o A).t.val - (o.s.val + o.t.val + A.val) := by
+    simp only [heldQ]; ring
+  rw [this]; exact key
+
+
+end AccumulatorLevel
+
+section Tool
+open GeoVerif.Planimeter
+/-! ### tools/Planimeter: one result line per polygon -/
+
+/-- every vertex line is counted in exactly one result line (`n` = vertices of the polygon being read) -/
+theorem segments_sum (l : List Bool) (n : ℕ) : (segments l n).sum = n + l.count true := by
+  induction l generalizing n with
+  | nil => unfold segments; split_ifs with h <;> simp [h]
+  | cons b r ih =>
+    cases b
+    · unfold segments; split_ifs with h
+      · rw [ih]; simp [h]
+      · simp [ih]
+    · unfold segments; rw [ih]; simp; omega
+
+/-- no result line is printed for a polygon without vertices -/
+theorem segments_pos (l : List Bool) (n : ℕ) : ∀ x ∈ segments l n, 0 < x := by
+  induction l generalizing n with
+  | nil => unfold segments; split_ifs with h <;> simp; omega
+  | cons b r ih =>
+    cases b
+    · unfold segments; split_ifs with h
+      · exact ih 0
+      · intro x hx; simp only [List.mem_cons] at hx; rcases hx with rfl | hx
+        · omega
+        · exact ih 0 x hx
+    · unfold segments; exact ih (n + 1)
+
+/-- at most one result line per terminator, plus one for the end of the input -/
+theorem segments_length (l : List Bool) (n : ℕ) : (segments l n).length ≤ l.count false + 1 := by
+  induction l generalizing n with
+  | nil => unfold segments; split_ifs <;> simp
+  | cons b r ih =>
+    cases b
+    · unfold segments; split_ifs with h
+      · have := ih 0; simp; omega
+      · have := ih 0; simp; omega
+    · unfold segments; have := ih (n + 1); simpa using this
+
+/-- an input of `k` vertex lines and nothing else is one polygon -/
+theorem segments_vertices_only (k n : ℕ) : segments (List.replicate k true) n = if n + k = 0 then [] else [n + k] := by
+  induction k generalizing n with
+  | zero => simp [segments]
+  | succ k ih => rw [List.replicate_succ]; unfold segments; rw [ih]; simp; omega
+
+example : segments [true, true, true, false, false, true, false, true, true] 0 = [3, 1, 2] := by decide
+
+
+end Tool
 
 end GeoVerif.Props.C08
